@@ -1862,6 +1862,8 @@ class C13(Check):
                     return f"model has no field {pr['name']}"
                 if pr["absent"] not in ("ok", "AbsenceError"):
                     continue
+                if pr["absent"] == "AbsenceError" and pr["absent_item"] != pr["name"]:
+                    continue    # another field (a required dependant left out of the probe input) failed first: undecided
                 absent_err = pr["absent"] == "AbsenceError" and pr["absent_item"] == pr["name"]
                 if absent_err != r["isRequired"]:
                     return f"field {pr['name']}: absence raises={absent_err} model isRequired={r['isRequired']}"
